@@ -1,6 +1,6 @@
 from .isa import thumb_isa, ThumbToken
 from ..encoding import Relocation
-from ...utils.bitfun import align, wrap_negative, BitView
+from ...utils.bitfun import align, wrap_signed, BitView
 
 
 @thumb_isa.register_relocation
@@ -25,7 +25,7 @@ class WrapNew11Relocation(Relocation):
     def apply(self, sym_value, data, reloc_value):
         offset = sym_value - (align(reloc_value, 2) + 4)
         assert offset in range(-2048, 2046, 2)
-        imm11 = wrap_negative(offset >> 1, 11)
+        imm11 = wrap_signed(offset >> 1, 11)
         bv = BitView(data, 0, 2)
         bv[0:11] = imm11
         return data
@@ -40,7 +40,7 @@ class Rel8Relocation(Relocation):
         assert sym_value % 2 == 0
         offset = sym_value - (align(reloc_value, 2) + 4)
         assert offset in range(-256, 254, 2), str(offset)
-        imm8 = wrap_negative(offset >> 1, 8)
+        imm8 = wrap_signed(offset >> 1, 8)
         data[0] = imm8
         return data
 
@@ -57,7 +57,7 @@ class BlImm11Relocation(Relocation):
         assert sym_value % 2 == 0
         offset = sym_value - (align(reloc_value, 2) + 4)
         assert offset in range(-16777216, 16777214, 2), str(offset)
-        imm32 = wrap_negative(offset >> 1, 32)
+        imm32 = wrap_signed(offset >> 1, 32)
         imm11 = imm32 & 0x7FF
         imm10 = (imm32 >> 11) & 0x3FF
         i2 = (imm32 >> 21) & 0x1
@@ -87,7 +87,7 @@ class BImm11Imm6Relocation(Relocation):
         assert sym_value % 2 == 0
         offset = sym_value - (align(reloc_value, 2) + 4)
         assert offset in range(-1048576, 1048574, 2), str(offset)
-        imm32 = wrap_negative(offset >> 1, 32)
+        imm32 = wrap_signed(offset >> 1, 32)
         imm11 = imm32 & 0x7FF
         imm6 = (imm32 >> 11) & 0x3F
         # offset = SignExtend(S:J2:J1:imm6:imm11:0)
